@@ -41,6 +41,8 @@ def do_call(obj, call):
             elif o[0] == "tell":
                 r = obj.tell()
         return r
+    if op == "parse_line":
+        return obj.parse_line(call[1])
     if op == "stream_step":
         return obj.stream_step()
     if op == "partial_runs":
@@ -83,6 +85,11 @@ def main():
     if "raises" in exp:
         print(f"MISMATCH returned normally (expected {exp['raises']})")
         return 1
+    if exp.get("assembly"):
+        got, want, size_ok = res
+        ok = size_ok and got[: len(want)] == want and len(got) >= len(want)
+        print(f"{'MATCH' if ok else 'MISMATCH'} assembled read: {len(got)} bytes, expected {len(want)}, size ok {size_ok}")
+        return 0 if ok else 1
     if "bits" in exp:
         flat = []
         for t, c in res:
